@@ -327,7 +327,7 @@ func runCheck(repo, verif, prop, tier string, keep bool, only string, verbose bo
 	assumptions = append(assumptions,
 		"govc VC generator (this engine) is trusted",
 		"Go int is 64-bit; integer arithmetic modelled as mathematical integers with explicit wrap-around at every operation and conversion",
-		"slices are value sequences: aliasing between slices is not modelled; capacity is not modelled",
+		"slices are value sequences: aliasing between slices is not modelled; capacity is not modelled; slice lengths are at most 2^48",
 		"calls into logging/metrics/formatting packages return arbitrary values and do not touch modelled state",
 		"goroutine bodies started with `go` are not executed; scheduling is not modelled")
 	var samples []oblReport
